@@ -5,7 +5,11 @@
 EXTENDS IntArithDef, Json, IOUtils
 Rec == ndJsonDeserialize(IOEnv.TRACE)
 
-Why(e) ==
+HugeWhy(e) ==
+  LET badg == {i \in 1..Len(e.outs) : ~HugeOutcomeOK(e.res, e.op, e.a, e.b, e.outs[i].out)}
+  IN IF badg = {} THEN "" ELSE IF Len(e.outs) > 1 THEN "forms-disagree-with-definition"
+     ELSE IF e.outs[1].out.k = "panic" THEN "unexpected-panic" ELSE "wrong-value-residues"
+ExactWhy(e) ==
   LET exp == RingResult(e.op, e.a, e.b, e.n)
       badg == {i \in 1..Len(e.outs) : ~OutcomeOK(e.res, exp, e.outs[i].out)}
   IN IF ~(IsInt(e.a) /\ IsInt(e.b)) THEN "malformed-operand"
@@ -14,6 +18,7 @@ Why(e) ==
      ELSE IF Len(e.outs) > 1 THEN "forms-disagree-with-definition"
      ELSE IF e.outs[1].out.k = "panic" THEN "unexpected-panic"
      ELSE "wrong-value"
+Why(e) == IF IsInt(e.a) /\ IsInt(e.b) /\ IsHuge(e.op, e.a, e.b) THEN HugeWhy(e) ELSE ExactWhy(e)
 
 VARIABLES l, bad
 Init == l = 1 /\ bad = <<>>
